@@ -204,6 +204,10 @@ class ApplyUnitsTask(Task):
             if res.status == 'refuted':
                 dct['reason'] = ob.meta.get('note', '')
                 dct['replay'] = replay_units(self.q, self.pref)
+                if not dct['replay'].get('confirmed'):
+                    h = history_units()
+                    if h.get('confirmed'):
+                        dct['replay'] = h
             out['results'].append(dct)
         return out
 
@@ -232,6 +236,71 @@ def replay_units(q, pref):
         if fs[1].unit_of_measurement != exp[0] or fs[1].raw_value != x or abs(Fraction(fs[1].value) - want) > CONV[exp[1]][1] + Fraction(1, 10 ** 4):
             bad.append(f'{fs[1].value} {fs[1].unit_of_measurement} (raw {fs[1].raw_value}), expected about {float(want)} {exp[0]}')
     return {'confirmed': bool(bad), 'inputs': {'quantity': q, 'preference': pref, 'value': x}, 'observed': bad, 'how': 'NMEA2000Message.apply_preferred_units on the working tree'}
+
+
+_HIST = {}
+
+
+def history_units():
+    """Bounded native battery: one long-lived decoder per preference set decodes a sample payload of EVERY database
+    definition (database order, then reversed) and each result is compared with a fresh decoder without preferences
+    plus the conversion table - a hidden dependence of the conversion on earlier traffic shows up here."""
+    if 'r' in _HIST:
+        return _HIST['r']
+    from nmea2000.decoder import NMEA2000Decoder
+    from nmea2000.consts import PhysicalQuantities as PQ
+    from spec.canboat import sample_line
+    from props.C01 import db
+    defs = [d for d in db().defs]
+    bad = None
+    for prefs in ({PQ.TEMPERATURE: 'c', PQ.PRESSURE: 'bar', PQ.ANGLE: 'deg', PQ.SPEED: 'kts'}, {PQ.TEMPERATURE: 'F', PQ.PRESSURE: 'psi', PQ.VOLUME: 'gal'}):
+        dec = NMEA2000Decoder(preferred_units=prefs)
+        low = {k.name: v.lower() for k, v in prefs.items()}
+        for order in (defs, defs[::-1]):
+            for d in order:
+                line = sample_line(d)
+                try:
+                    ref = NMEA2000Decoder().decode_basic_string(line, True)
+                except Exception:  # noqa
+                    continue
+                try:
+                    got = dec.decode_basic_string(line, True)
+                except Exception as e:  # noqa
+                    bad = {'frame': line, 'preferences': low, 'observed': f'raises {type(e).__name__}: {e}', 'expected': 'the unconverted message with converted values'}
+                    break
+                if ref is None or got is None:
+                    if (ref is None) != (got is None):
+                        bad = {'frame': line, 'preferences': low, 'observed': str(got)[:120], 'expected': str(ref)[:120]}
+                        break
+                    continue
+                if (got.PGN, got.id, len(got.fields)) != (ref.PGN, ref.id, len(ref.fields)):
+                    bad = {'frame': line, 'preferences': low, 'observed': f'{got.id} with {len(got.fields)} fields', 'expected': f'{ref.id} with {len(ref.fields)} fields'}
+                    break
+                for fg, fr_ in zip(got.fields, ref.fields):
+                    q = fr_.physical_quantities.name if fr_.physical_quantities is not None else None
+                    exp = TABLE.get((q, low.get(q)))
+                    same_rest = (fg.id, fg.name, fg.raw_value, fg.type, fg.part_of_primary_key, fg.physical_quantities) == (fr_.id, fr_.name, fr_.raw_value, fr_.type, fr_.part_of_primary_key, fr_.physical_quantities)
+                    if exp is None or fr_.value is None or not isinstance(fr_.value, (int, float)):
+                        ok = same_rest and fg.value == fr_.value and fg.unit_of_measurement == fr_.unit_of_measurement
+                        want = f'{fr_.value} {fr_.unit_of_measurement}'
+                    else:
+                        w = native_exact(exp[1], fr_.value)
+                        _, half, rel = CONV[exp[1]]
+                        tol = half + 64 * U * (abs(w) + abs(Fraction(fr_.value)) + 300) + rel * abs(w)
+                        ok = same_rest and fg.unit_of_measurement == exp[0] and isinstance(fg.value, (int, float)) and abs(Fraction(fg.value) - w) <= tol
+                        want = f'about {float(w)} {exp[0]}'
+                    if not ok:
+                        bad = {'frame': line, 'definition': d.id, 'preferences': low, 'field': fr_.id, 'observed': f'{fg.value} {fg.unit_of_measurement} (raw {fg.raw_value})', 'expected': want,
+                               'history': 'sample payloads of all database definitions decoded before this one by the same decoder'}
+                        break
+                if bad:
+                    break
+            if bad:
+                break
+        if bad:
+            break
+    _HIST['r'] = {'confirmed': bool(bad), 'inputs': bad, 'how': 'long-lived NMEA2000Decoder(preferred_units=...) over sample payloads of every definition, working tree'}
+    return _HIST['r']
 
 
 def main(tier):
